@@ -499,9 +499,10 @@ package encoding
 //@   ensures  appendShape(result0, dst)
 //
 // Int64ListToBytes: the mode byte it reports is always one of the four integer-list modes (never Plain / Dictionary /
-// Unknown, which the column and tag decoders use to tell a fallback block from an integer list), a constant list is
-// stored as "const + first value" with no payload - which BytesToInt64List's const branch turns back into the same list -
-// and delta-const is chosen only for lists whose consecutive differences are all equal.
+// Unknown, which BytesToInt64List refuses), "const" is chosen only for lists whose elements all equal the reported first
+// value and then adds no payload - BytesToInt64List's const branch turns exactly that back into the same list - and
+// delta-const is chosen only for lists whose consecutive (wrapping) differences are all equal, which is what the
+// decoder's wrapping v += d reproduces. Which lossless mode is preferred for a given list is not constrained.
 //@ func Int64ListToBytes
 //@   property C11 C01
 //@   mode bv
@@ -509,7 +510,6 @@ package encoding
 //@   modifies dst[len(dst):cap(dst)]
 //@   allow panic when false
 //@   ensures  mode-is-an-integer-list-mode: result1 == EncodeTypeConst || result1 == EncodeTypeDeltaConst || result1 == EncodeTypeDeltaOfDelta || result1 == EncodeTypeDelta
-//@   ensures  const-list: (forall k :: 0 <= k && k < len(a) ==> a[k] == a[0]) ==> result1 == EncodeTypeConst && result2 == a[0] && samehdr(result0, dst)
-//@   ensures  only-const-lists-are-const: result1 == EncodeTypeConst ==> (forall k :: 0 <= k && k < len(a) ==> a[k] == a[0])
+//@   ensures  const-means-all-equal-first: result1 == EncodeTypeConst ==> result2 == a[0] && samehdr(result0, dst) && (forall k :: 0 <= k && k < len(a) ==> a[k] == a[0])
 //@   ensures  delta-const-list: result1 == EncodeTypeDeltaConst ==> len(a) >= 2 && result2 == a[0] && (forall k :: 1 <= k && k < len(a) ==> wrap(a[k] - a[k-1]) == wrap(a[1] - a[0]))
 //@   ensures  delta-of-delta-needs-two: result1 == EncodeTypeDeltaOfDelta ==> len(a) >= 2
